@@ -1,6 +1,7 @@
 SPECIFICATION Spec
 CONSTANTS NF = 3
           SharedTable = FALSE
+          LeakOnFault = FALSE
           KeepCmInputs = FALSE
 INVARIANT Isolation
 INVARIANT SkipBad
